@@ -13,11 +13,12 @@ from protocol_code_generator.util.xml_utils import (
 
 
 class FieldData:
-    def __init__(self, name, type, offset, array):
+    def __init__(self, name, type, offset, array, optional=False):
         self.name = name
         self.type_ = type
         self.offset = offset
         self.array = array
+        self.optional = optional
 
 
 class ObjectGenerationContext:
